@@ -500,6 +500,31 @@ fn oracle_errors(req: &Req, dir: &Path) -> Ans {
 	}
 }
 
+/// specification of `contract_inner_class_names` on the `mapcodec` encoding: in namespace `ns` a class name `P$I` with
+/// non-empty `P` not ending in `/` and non-empty `I` without `/` (split at the LAST `$`) becomes `I`; everything else —
+/// other namespaces, keys, members, comments (the mapping set's own included) — is what it was
+fn spec_contract(m: &Sexp, ns: usize) -> Sexp {
+	let classes = nth(m, 2).as_list().map(|l| l.iter().map(|c| {
+		let names: Vec<Sexp> = nth(c, 1).as_list().map(|l| l.to_vec()).unwrap_or_default();
+		let names = Sexp::list(names.iter().enumerate().map(|(i, o)| {
+			if i != ns { return o.clone(); }
+			let Ok(Some(x)) = o.as_opt() else { return o.clone() };
+			let cps = cps_of(x);
+			match cps.iter().rposition(|&c| c == '$' as u32) {
+				Some(k) if k > 0 && k + 1 < cps.len() && cps[k - 1] != '/' as u32 && !cps[k + 1..].contains(&('/' as u32)) =>
+					Sexp::list(vec![Sexp::cps(&cps[k + 1..])]),
+				_ => o.clone(),
+			}
+		}).collect());
+		Sexp::list(vec![nth(c, 0), names, nth(c, 2), nth(c, 3), nth(c, 4)])
+	}).collect()).unwrap_or_default();
+	Sexp::list(vec![nth(m, 0), nth(m, 1), Sexp::list(classes)])
+}
+
+fn named_index(m: &Sexp) -> usize {
+	nth(m, 0).as_list().ok().and_then(|l| l.iter().position(|n| cps_of(n) == str_cps("named"))).unwrap_or(usize::MAX)
+}
+
 fn oracle_path_independent(req: &Req, dir: &Path, labels: &Sexp) -> Ans {
 	let names: Vec<&str> = req.files.iter().map(|f| f.name.as_str()).collect();
 	let mut lab: BTreeMap<String, RM> = BTreeMap::new();
@@ -515,8 +540,12 @@ fn oracle_path_independent(req: &Req, dir: &Path, labels: &Sexp) -> Ans {
 	// domain: the labels are consistent with every diff file and with the root file. "Consistent with a diff file" is
 	// decided by the specification of diff application on the content the request gives for that file, not by reading
 	// and applying it with the code under test: an edge that the implementation cannot read or apply stays in the domain.
-	let same = |a: &RM, b: &RM| canon(a) == canon(b);
-	match lab.get(r.root.as_str()) { Some(m) if same(m, r.root_m) => {}, _ => return Ans::out_of_domain() }
+	// the root label must be the content the request gives for the root file with the inner class names of the second
+	// namespace contracted — decided on the request (specification side, `spec_contract`), NOT on the root mappings the
+	// implementation stored: a `resolve` that stores something else than the root file says stays inside the domain and fails
+	let root_files: Vec<&FileSpec> = req.files.iter().filter(|f| f.name.ends_with(".tiny")).collect();
+	let [FileSpec { content: Content::Tiny(root_content), .. }] = root_files.as_slice() else { return Ans::out_of_domain() };
+	match lab.get(r.root.as_str()) { Some(m) if canon(m) == canon_sexp(&spec_contract(root_content, named_index(root_content))) => {}, _ => return Ans::out_of_domain() }
 	for (p, _) in &r.nodes {
 		let Some(mp) = lab.get(p) else { continue };
 		for c in r.adj.get(p).cloned().unwrap_or_default() {
